@@ -280,7 +280,12 @@ def gen_spec(rng, style=None):
         step = rng.choice([1., 3., 0.5, 24.])
         vars_.append({'name': tname, 'dt': 'f8', 'dims': [tname],
                       'gen': ['lin', float(rng.randrange(0, 100)), step],
-                      'attrs': {'units': units, 'calendar': 'standard'},
+                      'attrs': {'units': units,
+                                # model calendars without (or with only) leap years are
+                                # decoded by a separate branch of getTimes
+                                'calendar': rng.choice(['standard', 'standard', 'gregorian',
+                                                        'noleap', '365_day', 'all_leap',
+                                                        '366_day'])},
                       'coord': True})
     for d in order:
         if rng.random() < 0.8 and dl[d] >= 2:
